@@ -40,6 +40,17 @@ def grammar_rule(rep, mod, f, name):
                 fold = True
             elif i.op == 'call' and i.callee in ('tolower', 'toupper', 'igris_tolower', 'igris_toupper'):
                 fold = True
+            elif i.op == 'call' and i.callee in ('strchr', 'memchr', 'strpbrk', 'strspn', 'strcspn'):
+                # membership in a constant character set
+                for o in i.ops:
+                    gname = None
+                    if o.k == 'global':
+                        gname = o.name
+                    elif o.k == 'cexpr' and o.d.get('ops') and o.d['ops'][0].get('k') == 'global':
+                        gname = o.d['ops'][0].get('name')
+                    gl = mod.globals.get(gname) if gname else None
+                    if gl and gl.get('const') and isinstance(gl.get('init'), list):
+                        eq.update(x for x in gl['init'] if isinstance(x, int) and x)
     w = where(f)
     for key, ok, miss in (
             ('recognises a leading \'-\'', 45 in eq, '\'-\''),
@@ -79,14 +90,27 @@ def float_accumulators(f):
     return out
 
 
+def unguarded_accumulator(t):
+    """t accumulates digits as acc*B + d in a fixed-width integer and never compares the accumulator with anything
+    (no overflow test): excess digits wrap"""
+    for a in find_accumulators(t):
+        ids = {a['phi'].id, a['add'].id, a['mul'].id}
+        guarded = any(i.op == 'icmp' and any(o.k == 'inst' and o.id in ids for o in i.ops)
+                      for b in a['loop']['blocks'] for i in b.insts)
+        if not guarded:
+            return True
+    return False
+
+
 def fpacc_rule(rep, mod, f, name):
-    """R-FPACC: the mantissa digits are accumulated in floating point (val*10+d); a fixed-width integer accumulator
-    silently wraps on literals with more digits than it can hold"""
+    """R-FPACC: the mantissa digits are not collected by a fixed-width integer parser that wraps silently on literals
+    with more digits than it can hold (accumulating in floating point as val*10+d, or an integer accumulator with an
+    overflow test, both pass)"""
     facc = [a for a in float_accumulators(f) if a[2] == 10.0]
     bad = []
     for c in f.calls():
         t = mod.fn(c.callee) if c.callee else None
-        if t is None or t.decl or not find_accumulators(t):
+        if t is None or t.decl or not unguarded_accumulator(t):
             continue
         for u in f.users(c):
             x = u
@@ -95,12 +119,16 @@ def fpacc_rule(rep, mod, f, name):
                 x = us[0] if us else x
             if x.op in ('uitofp', 'sitofp'):
                 bad.append((c.callee, t.ret.get('bits')))
-    ok = bool(facc) and not bad
-    rep.inst('R-FPACC', name, 'mantissa-accumulated-in-floating-point', ok, where(f),
-             None if ok else ('the mantissa is parsed by %s into a fixed-width integer and converted afterwards: digits '
-                              'beyond that width wrap silently (e.g. an integer part of 2^32 or 20 fraction digits)'
-                              % ', '.join('%s (%s bits)' % b for b in sorted(set(bad))) if bad else
-                              'no floating-point digit accumulation loop found'),
+    if unguarded_accumulator(f):
+        for a in find_accumulators(f):
+            for u in f.users(a['phi']):
+                if u.op in ('uitofp', 'sitofp') and u.block not in a['loop']['blocks']:
+                    bad.append((name, a['phi'].bits))
+    ok = not bad
+    rep.inst('R-FPACC', name, 'mantissa digits are not collected in a fixed-width integer that wraps', ok, where(f),
+             None if ok else ('the mantissa is parsed by %s into a fixed-width integer without an overflow test and converted '
+                              'afterwards: digits beyond that width wrap silently (e.g. an integer part of 2^32 or 20 fraction '
+                              'digits)' % ', '.join('%s (%s bits)' % b for b in sorted(set(bad)))),
              fact={'float_loops': len(facc), 'integer_parsers': sorted(set(b[0] for b in bad))})
 
 
@@ -136,6 +164,43 @@ def exp_minus(it, st):
     return False
 
 
+class InterpP(InterpF):
+    """InterpF with hooks on loop entry: entry[(function, header block)] = f(interp, state, function, loop, from block)"""
+
+    def __init__(self, mod, externals=None, opaque=()):
+        InterpF.__init__(self, mod, externals, opaque)
+        self.entry = {}
+
+    def run_loop(self, fn, L, st, frm, rets):
+        h = self.entry.get((fn.name, L['header'].name))
+        if h is not None and self.recording == 0:
+            h(self, st, fn, L, frm)
+        return InterpF.run_loop(self, fn, L, st, frm, rets)
+
+
+def sign_skipped_hook(sink, rule, fname, label):
+    """on entry to a digit scan loop: the character under the cursor is not one the path has already identified as a sign
+    (a sign that was recognised but not stepped over ends the digit scan at once: "1e+5" would parse as 1)"""
+    def hook(it, st, fn, L, frm):
+        cur = [i for i in L['header'].insts if i.op == 'phi' and i.ty.get('k') == 'ptr']
+        if len(cur) != 1:
+            return
+        init = [it.val(st, v, fn) for (bb, v) in cur[0].incoming if bb == frm.name]
+        if len(init) != 1 or not isinstance(init[0], PtrVal):
+            return
+        ent = (st.ghost.get('chars') or {}).get(init[0].off.key())
+        bad = None
+        if ent is not None:
+            for (c, nm) in ((43, '+'), (45, '-')):
+                if forced(it, st, ent[1], c):
+                    bad = nm
+        sink.inst(rule, fname, 'a sign in front of %s is stepped over before its digits are scanned' % label, bad is None,
+                  L['header'].term.where(),
+                  'the digits of %s are scanned from offset %r, where this path has just recognised a \'%s\'' % (
+                      label, init[0].off, bad))
+    return hook
+
+
 def atof64_check(rep, mod):
     import absint
     old = absint.MAX_STATES
@@ -150,9 +215,12 @@ def _atof64_check(rep, mod):
     fname = 'igris_atof64'
     f = need(mod, fname)
     accs = find_accumulators(f)
-    if len(accs) != 1 or strip(f, accs[0]['base']).k != 'ci' or strip(f, accs[0]['base']).ival != 10:
-        raise AnalysisBroken('%s: decimal exponent accumulation loop not found' % fname)
+    if len(accs) != 1:
+        raise AnalysisBroken('%s: exponent accumulation loop not found' % fname)
     E = accs[0]
+    eb = strip(f, E['base'])
+    rep.inst('R-ATOF64', fname, 'exponent digits are accumulated as e*10 + digit', eb.k == 'ci' and eb.ival == 10,
+             E['mul'].where(), 'the exponent is accumulated in base %s' % (eb.ival if eb.k == 'ci' else '?'))
     # the addition that merges the exponent into the scale count
     merges = []
     for i in f.all_insts():
@@ -172,10 +240,21 @@ def _atof64_check(rep, mod):
             for u in f.users(i):
                 if u.op == 'fmul' and any(depends_ret(f, r, u) for r in rets):
                     signs.append(i)
+    if not signs and len(rets) == 1 and rets[0].ops:
+        # no factor at all: when the returned value is just the scaled mantissa, nothing can make it negative
+        o = origins(f, rets[0].ops[0])
+        plain = all(k[0] == 'c' or (k[0] == 'i' and f.insts[k[1]].op == 'fmul' and
+                                    any(x.k == 'cf' for x in f.insts[k[1]].ops)) or
+                    (k[0] == 'i' and f.insts[k[1]].op == 'phi') for k in o)
+        if plain:
+            rep.inst('R-MANTSIGN', fname, 'leading \'-\': result is negated', False, where(f),
+                     'the returned value is the scaled mantissa itself: no sign factor, negation or selection depends on '
+                     'the leading \'-\' (e.g. "-1" parses as 1)')
+            return
     if len(signs) != 1:
         raise AnalysisBroken('%s: expected one integer sign factor in the result, found %d' % (fname, len(signs)))
     S = signs[0]
-    it = InterpF(mod)
+    it = InterpP(mod)
     it.no_peel = True
     it.havoc_pure_loops(f)
     sink = Sink(rep, it)
@@ -216,6 +295,9 @@ def _atof64_check(rep, mod):
                       'e.g. in the exponent "1e-2", must not negate the value)' % sl)
     it.pre[(f.name, S.id)] = sign_hook
     IA, FA = atof64_ir_rules(rep, mod, f, fname, E, M, S)
+    # a sign is consumed before the digits after it are scanned
+    for (label, L) in (('the mantissa', IA[0]), ('the exponent', E['loop'])):
+        it.entry[(f.name, L['header'].name)] = sign_skipped_hook(sink, 'R-ATOF64', fname, label)
     # every accumulated digit is c - '0' of a character in '0'..'9' (the one just read)
     for (label, a) in (('integer digit', IA), ('fraction digit', FA)):
         acc = float_acc_inst(f, a)
